@@ -17,7 +17,7 @@ package batch
 //@   ascend 1 step partial: !continues ==> o.limit != nil && i == deref(o.limit) && calls(Write) - old(calls(Write)) == i - old(i) && i - old(i) < outItem(recordCounts, lastkey()).Count
 // C06 (output side): the table is written to stdout by the final Flush of the live writer; its failure fails Run.
 //@   ensures errprop: runErr != nil ==> result != nil
-//@   ensures flusherr: runErr == nil && lastres(Flush) != nil ==> result != nil
+//@   ensures flusherr: runErr == nil && lastres(libFlush) != nil ==> result != nil
 //@ func (*OutputPrinter).Run$lit4
 //@   loop 1 invariant rows: 0 <= j && j <= itemTyped.Count && i == wrap64(old(i) + j) && (o.limit != nil ==> 0 <= old(i)) && calls(Write) == old(calls(Write)) + j && (o.limit != nil ==> i <= deref(o.limit))
 
